@@ -130,6 +130,7 @@ type outcome struct {
 	resumes  int
 	maxGen   int
 	reports  int
+	refused  int
 }
 
 func (o outcome) bad() bool {
@@ -157,6 +158,25 @@ func diffSession(stmts []string, o diffOpts) (res outcome) {
 	rf := ref.New()
 	s := run.NewSession()
 	for i, src := range stmts {
+		if strings.HasPrefix(src, oversizeMark) {
+			// a statement built to exceed the compiler's limits: it must be refused
+			// without a trace (then it does not exist for the reference either) or work
+			src = strings.TrimPrefix(src, oversizeMark)
+			vr := s.Run(src, o.discard, 0)
+			switch {
+			case vr.Panic != "":
+				res.kind, res.why = "PANIC", fmt.Sprintf("stmt %d (oversized): %s", i, firstLine(vr.Panic))
+				return
+			case vr.CompileErr != nil:
+				res.refused++
+				continue
+			}
+			// accepted: the reference has to see it as well
+			if _, perr := rf.RunStmt(src); perr != nil {
+				return outcome{kind: "skip", why: "parse: " + perr.Error()}
+			}
+			continue
+		}
 		rr, perr := rf.RunStmt(src)
 		if perr != nil {
 			return outcome{kind: "skip", why: "parse: " + perr.Error()}
@@ -255,6 +275,14 @@ func clipS(s string) string {
 }
 
 const stmtSep = "\n----\n"
+
+// oversizeMark prefixes a statement that is expected to be refused at compile time.
+const oversizeMark = "\x02"
+
+// oversized builds a statement whose constants do not fit the data segment any more.
+func oversized(n int) string {
+	return oversizeMark + "zbig = [ga" + strings.Repeat(", 1", n) + "]"
+}
 
 func joinStmts(stmts []string) string { return strings.Join(stmts, stmtSep) }
 
